@@ -412,6 +412,19 @@ def run(ctx):
         if opb['rc'] == 0 and opb['out'].decode() != buf3.getvalue():
             ctx.violation('counterexample', '-of opb output differs from the library formula written as OPB', dict(input=dict(argv=['-q', '-of', 'opb'] + argv),
                           cli=opb['out'].decode()[:300], library=buf3.getvalue()[:300]), True, site='options', cls='opb-format')
+    # the `dimacs` sub-command reading from a pipe, in every output format: equals the library reading the same text
+    for text in ('p cnf 3 2\n1 -3 0\n2 3 -1 0\n', 'p cnf 2 0\n', 'c only\np cnf 1 1\n1 0\n'):
+        F = CNF.from_file(io.StringIO(text))
+        for fmt, opts in (('dimacs', []), ('opb', ['-of', 'opb']), ('latex', ['-of', 'latex']), ('latex', ['-l'])):
+            for tr, fun in (([], lambda X: X), (['-T', 'flip'], cnfgen.FlipPolarity)):
+                r = clirun.run_cli('cnfgen', ['-q'] + opts + ['dimacs'] + tr, stdin=text.encode())
+                buf = io.StringIO()
+                fun(F).to_file(buf, fileformat=fmt, export_header=False)
+                ctx.count('options', ('dimacs-pipe', fmt, tuple(tr), text), nontrivial=True)
+                if r['rc'] != 0 or (fmt != 'latex' and r['out'].decode() != buf.getvalue()) or (fmt == 'latex' and not r['out']):
+                    ctx.violation('counterexample', 'cnfgen %s dimacs (formula piped on stdin) differs from the library reading the same text (exit %s)' % (' '.join(opts), r['rc']),
+                                  dict(input=dict(argv=['-q'] + opts + ['dimacs'] + tr, stdin=text), cli=r['out'].decode()[:300], stderr=r['err'].decode()[-300:], library=buf.getvalue()[:300]),
+                                  True, site='dimacs-pipe', cls=fmt)
     # cnfshuffle -q
     r = clirun.run_cli('cnfshuffle', ['-q', '--seed', '3'], stdin=b'p cnf 2 2\n1 -2 0\n2 0\n')
     ctx.count('options', 'cnfshuffle -q', nontrivial=True)
